@@ -109,16 +109,17 @@ theorem readLoop_honest (K : Codec) (Sync : K.SS → K.RS → Prop) (lim : Nat) 
         (epReadLoop prot K.unprot max min tryOnce e chan).1.wr = e.wr ∧
         (epReadLoop prot K.unprot max min tryOnce e chan).1.resumable = e.resumable ∧
         (epReadLoop prot K.unprot max min tryOnce e chan).1.split = e.split ∧
-        (epReadLoop prot K.unprot max min tryOnce e chan).1.recordSize = e.recordSize ∧
+        ((epReadLoop prot K.unprot max min tryOnce e chan).1.recordSize = e.recordSize ∧
+          (epReadLoop prot K.unprot max min tryOnce e chan).1.sendLimit = e.sendLimit) ∧
         (epReadLoop prot K.unprot max min tryOnce e chan).2.2.2.bytes ++
           (epReadLoop prot K.unprot max min tryOnce e chan).1.buf = e.buf ++ consumed.flatten
   | [], pend, tryOnce, e, hinv, hcl => by
     simp only [epReadLoop]
     by_cases hcond : readMore e min tryOnce = true
     · simp only [hcond, if_true]
-      refine ⟨[], pend, by simp, hinv, ?_, ?_, hcl, ?_, ?_, ?_, ?_, ?_⟩ <;> simp [ReadOut.bytes, ReadOut.isFail]
+      refine ⟨[], pend, by simp, hinv, ?_, ?_, hcl, ?_, ?_, ?_, ⟨?_, ?_⟩, ?_⟩ <;> simp [ReadOut.bytes, ReadOut.isFail]
     · simp only [hcond, Bool.false_eq_true, if_false, epReturn]
-      refine ⟨[], pend, by simp, hinv, ?_, ?_, hcl, ?_, ?_, ?_, ?_, ?_⟩ <;> simp [ReadOut.bytes, ReadOut.isFail]
+      refine ⟨[], pend, by simp, hinv, ?_, ?_, hcl, ?_, ?_, ?_, ⟨?_, ?_⟩, ?_⟩ <;> simp [ReadOut.bytes, ReadOut.isFail]
   | r :: chan', pend, tryOnce, e, hinv, hcl => by
     simp only [epReadLoop]
     by_cases hcond : readMore e min tryOnce = true
@@ -163,6 +164,6 @@ theorem readLoop_honest (K : Codec) (Sync : K.SS → K.RS → Prop) (lim : Nat) 
               rw [h10]
               simp
     · simp only [hcond, Bool.false_eq_true, if_false, epReturn]
-      refine ⟨[], pend, by simp, hinv, ?_, ?_, hcl, ?_, ?_, ?_, ?_, ?_⟩ <;> simp [ReadOut.bytes, ReadOut.isFail]
+      refine ⟨[], pend, by simp, hinv, ?_, ?_, hcl, ?_, ?_, ?_, ⟨?_, ?_⟩, ?_⟩ <;> simp [ReadOut.bytes, ReadOut.isFail]
 
 end Tls.Rec
